@@ -41,8 +41,9 @@ def mac(sk: Term, data: Sequence[Term], iv: Optional[Sequence[Term]] = None) -> 
 
 
 class Comp:
-    def __init__(self, tags: List[Tuple[int, List[Term]]], blob: List[Term], enc: bool):
+    def __init__(self, tags: List[Tuple[int, List[Term]]], blob: List[Term], enc: bool, declared: Optional[int] = None):
         self.tags, self.blob, self.enc = tags, blob, enc
+        self.declared = len(blob) if declared is None else declared
 
 
 def ref_binary(comps: List[Comp], offset: int, sk: Term, defect: Optional[str] = None) -> List[Term]:
@@ -67,7 +68,7 @@ def ref_binary(comps: List[Comp], offset: int, sk: Term, defect: Optional[str] =
     size_field = dir_size - 4 + (1 if defect == "dir-size-too-large" else 0)
     out: List[Term] = be(size_field, 4)
     for i, c in enumerate(comps):
-        declared = len(c.blob) + (len(stored[i]) - len(c.blob) + 1 if defect == "declared-exceeds-stored" and i == 0 else 0)
+        declared = c.declared + (len(stored[i]) - c.declared + 1 if defect == "declared-exceeds-stored" and i == 0 else 0)
         e: List[Term] = be(adr, 4) + be(len(stored[i]), 4) + be(declared, 4) + mac(sk, stored[i]) + [C(len(tlvs[i]))] + tlvs[i]
         e += mac(sk, e, be(i + 1 + (1 if defect == "entry-index-shifted" else 0), 16))
         out += [C(len(e))] + e
@@ -116,6 +117,32 @@ def shapes(tier, enc_tag: int, enc_val: int):
     return out
 
 
+def _rekey(prog, chk, P, stk, sk, enc_tag, enc_val, fw):
+    """a file read under one session key and written under another: directory MACs, payload MACs and ciphertext all use the NEW key"""
+    sk2 = mk("param", "sk2")
+    ta, b0, b1 = R.syms("ka", 2), R.syms("kx", 9), R.syms("ky", 21)
+    src = ("def drv(sk, sk2, off, ta, b0, b1):\n    f = Bf3File({}, [Bf3Component({0xC1: ta}, b0), Bf3Component({0xC1: ta, %d: %r}, b1, None, True)])\n"
+           "    raw = f.to_binary(off, sk)\n    rdr = BytesReader(bytes(off) + raw)\n    rdr.read(off)\n    g = Bf3File.from_binary(rdr, None, True, sk)\n"
+           "    return (g.to_binary(off, sk2), g.to_binary(off, sk), f.to_binary(off, sk2))\n") % (enc_tag, bytes([enc_val]))
+    ex, res = stk.run(BF3Q, src, {"sk": sk, "sk2": sk2, "off": C(5), "ta": sbytes(ta), "b0": sbytes(b0), "b1": sbytes(b1)})
+    bad = None
+    if res.dead or res.ret is None or unsnap(res.ret).op != "tuple":
+        bad = "write / read / write under another key raises"
+    else:
+        encd = (enc_tag, [C(enc_val)])
+        read_state = [Comp([(0xC1, ta)], b0, False), Comp([(0xC1, ta), encd], pad0(b1), True, declared=len(b1))]
+        orig_state = [Comp([(0xC1, ta)], b0, False), Comp([(0xC1, ta), encd], b1, True)]
+        r_new, r_old, r_orig = unsnap(res.ret).args[0]
+        for label, r_, st_, k_ in (("the file read under key 1 and written under key 2", r_new, read_state, sk2), ("the file read and written under key 1", r_old, read_state, sk),
+                                   ("the original object written under key 2 after it was written under key 1", r_orig, orig_state, sk2)):
+            why = S._cmp(R.flat(ex, res, r_), ref_binary(st_, 5, k_), "the documented layout under the key passed to the writer")
+            if why:
+                bad = "%s: %s" % (label, why)
+                break
+    chk.require(bad is None, P("stack-bf3-rekey"), fw.qualname, "write(k1), read(k1), write(k2) / write(k1) / original object write(k2)", "%s:%d" % (fw.file, fw.lineno),
+                "the key handed to the writer is the one that encrypts the components and makes every MAC, also for objects that were read from a file under another key", bad or "")
+
+
 def bf3_file_rules(prog, chk, pid, tier, want=("layout", "roundtrip")):
     P = lambda s: "%s.%s" % (pid, s)
     try:
@@ -129,7 +156,9 @@ def bf3_file_rules(prog, chk, pid, tier, want=("layout", "roundtrip")):
     fr = prog.method(BF3Q + ".Bf3File", "from_binary")
     bad_layout = bad_rt = None
     n = 0
-    for comps_spec, offset in shapes(tier, enc_tag, enc_val):
+    if "rekey" in want:
+        _rekey(prog, chk, P, stk, sk, enc_tag, enc_val, fw)
+    for comps_spec, offset in (shapes(tier, enc_tag, enc_val) if "layout" in want or "roundtrip" in want else ()):
         n += 1
         args = {"sk": sk, "off": C(offset)}
         comps: List[Comp] = []
@@ -221,7 +250,7 @@ def bf3_file_rules(prog, chk, pid, tier, want=("layout", "roundtrip")):
             if why:
                 bad_h = "write number %d (after %s): %s" % (k + 1, ["creation", "adding a tag", "replacing a component and a payload", "appending a component"][k], why)
                 break
-    if "layout" in want or "roundtrip" in want:
+    if "layout" in want or "roundtrip" in want or "rekey" in want:
         chk.require(bad_h is None, P("stack-bf3-rewrite"), fw.qualname, "write, add a tag, write, replace component / payload, write, append, write", "%s:%d" % (fw.file, fw.lineno),
                     "every write produces the documented bytes of the object's current state: nothing computed for an earlier write (directory size, addresses, ciphertext, MACs) is reused after an edit", bad_h or "")
     if "layout" in want:
